@@ -20,8 +20,11 @@ pub fn run_enum(name: &str, _args: &[String], w: &mut dyn Write) -> bool {
   match name {
     // y : signed month numbers from the lunation containing the winter solstice of December y-1 to the one
     // containing the winter solstice of December y (calendar-making solstice days), stepping with next(1)
-    "c04.years" => {
+    // `c04.years.hist`: the same lines, each computed right after a battery of unusual calls about the year and its
+    // neighbours (wrapped term indices, refused months, other views): the answers must be the history-free ones
+    "c04.years" | "c04.years.hist" => {
       for y in 27i64..=9999 {
+        if name == "c04.years.hist" { noise_year(y); noise_year(y + 1); }
         // the property excludes the AD 237-240 reform years
         if (238..=240).contains(&y) { writeln!(w, "{} : excluded", y).unwrap(); continue; }
         let line = guard(|| {
